@@ -496,16 +496,19 @@ CLASSES = ["lower", "upper", "digit", "other", "nonascii"]
 
 
 def _assume_class(ch, cls: str) -> None:
+    # '&' / '|' on symbolic booleans build one z3 term: a single assume, no fork per comparison
     o = ord(ch)
+    lower = (o >= 97) & (o <= 122)
+    upper = (o >= 65) & (o <= 90)
+    digit = ((o >= 48) & (o <= 57)) | (o == 95) | (o == 36)
     if cls == "lower":
-        assume(97 <= o <= 122)
+        assume(lower)
     elif cls == "upper":
-        assume(65 <= o <= 90)
+        assume(upper)
     elif cls == "digit":
-        assume((48 <= o <= 57) or o == 95 or o == 36)
+        assume(digit)
     elif cls == "other":
-        assume(0 < o < 128)
-        assume(not (97 <= o <= 122) and not (65 <= o <= 90) and not (48 <= o <= 57) and o != 95 and o != 36)
+        assume((o > 0) & (o < 128) & ~lower & ~upper & ~digit)
     else:
         assume(o >= 128)
 
@@ -547,23 +550,51 @@ def h_escape(dn: str, n: int, s: str) -> bool:
     return True
 
 
-# (a) symbolic: names made of letters -- every reserved word of the dialect (and, for SQLite, every
-# keyword of the linked library) is reached by the solver through the set-membership scan
-def h_keyword(dn: str, n: int, upper: bool, s: str) -> bool:
+# (a) symbolic: lower-case names of a given length -- every reserved word and every keyword of the
+# linked SQLite library is reached by the solver through the membership scans
+def _underscore_positions(n: int):
+    return sorted({i for w in CANDIDATE_WORDS if len(w) == n for i, ch in enumerate(w) if ch == "_"})
+
+
+def h_keyword(dn: str, n: int, s: str) -> bool:
     assume(len(s) == n)
-    for ch in s:
-        o = ord(ch)
-        if upper:
-            assume((65 <= o <= 90) or o == 95)
-        else:
-            assume((97 <= o <= 122) or o == 95)
+    us = _underscore_positions(n)
+    cond = True
+    for i in range(n):
+        o = ord(s[i])
+        c = (o >= 97) & (o <= 122)
+        if i in us:
+            c = c | (o == 95)
+        cond = cond & c
+    assume(cond)
     prep = _prep(dn)
     out = prep.quote(s)
-    if upper:
-        low = "".join([chr(ord(ch) + 32) if ch != "_" else ch for ch in s])
-        if _in_words(low, RESERVED[dn].get(n, ())) and len(out) == len(s):
-            return False  # the decision must be case-insensitive
-    return _check_rendered(dn, s, out, None, n)
+    if len(out) == len(s):
+        # unquoted (every character is a legal bare-identifier character by construction)
+        bad = out != s or _in_words(s, RESERVED[dn].get(n, ())) or _in_words(s, SQLITE_KW_BY_LEN.get(n, ()))
+        if bad and not _tracing():
+            return _sqlite_e2e_ok(s)
+        return not bad
+    opn, cls = DELIMS[FAMILY[dn]]
+    dec = _lex_delimited(out, opn, cls, DOUBLE[dn])
+    return dec is not None and dec == s
+
+
+# (b) every word of the dialect's own reserved_words, in three spellings, is quoted
+def _reserved_body(dn: str, idx: int) -> bool:
+    w = sorted(DIALECTS[dn].identifier_preparer.reserved_words)[idx]
+    prep = _prep(dn)
+    opn, cls = DELIMS[FAMILY[dn]]
+    for v in (w, w.upper(), w.capitalize()):
+        out = prep.quote(v)
+        if len(out) == len(v) or _lex_delimited(out, opn, cls, DOUBLE[dn]) != v:
+            return False
+    return True
+
+
+def h_reserved(dn: str, nwords: int, idx: int) -> bool:
+    assume(0 <= idx < nwords)
+    return native(_reserved_body, dn, concrete(idx))
 
 
 # (b) solver-chosen inputs, concrete execution: quoted_name with quote=True/False/None (constructing
@@ -710,18 +741,21 @@ META = {
 def harnesses(tier: str) -> List[Harness]:
     q = tier == "quick"
     hs: List[Harness] = []
-    nmax = 2 if q else 3
-    hs.append(Harness("quote", h_quote,
-                      [dict(dn=d, n=n, cls=",".join(cv)) for d in MAIN for n in range(1, nmax + 1)
-                       for cv in itertools.product(CLASSES, repeat=n)],
-                      budget_s=60 if q else 800))
+    # _requires_quotes is shared code: "default" and "mariadb" differ from postgresql / mysql only in the
+    # reserved-word set (covered by "reserved"), so the quick tier runs them at length 1 only
+    for d in MAIN:
+        nmax = (2 if d not in ("default", "mariadb") else 1) if q else 3
+        hs.append(Harness("quote", h_quote, [dict(dn=d, n=n, cls=",".join(cv)) for n in range(1, nmax + 1)
+                                              for cv in itertools.product(CLASSES, repeat=n)],
+                          budget_s=60 if q else 400))
+    hs = [Harness("quote", h_quote, [sl for h in hs for sl in h.slices], budget_s=60 if q else 400)]
     hs.append(Harness("escape", h_escape,
                       [dict(dn=d, n=n) for d in DIALECTS for n in range(0, (3 if q else 4) + 1)],
                       budget_s=30 if q else 200))
-    lens = range(2, 19) if q else range(1, 25)
-    hs.append(Harness("keyword", h_keyword,
-                      [dict(dn=d, n=n, upper=u) for d in MAIN for n in lens for u in (False, True)],
-                      budget_s=40 if q else 120))
+    hs.append(Harness("keyword", h_keyword, [dict(dn="sqlite", n=n) for n in (range(2, 19) if q else range(1, 25))],
+                      budget_s=60 if q else 200))
+    hs.append(Harness("reserved", h_reserved,
+                      [dict(dn=d, nwords=len(DIALECTS[d].identifier_preparer.reserved_words)) for d in MAIN], budget_s=60))
     hs.append(Harness("flag", h_flag, [dict(dn=d, flag=f) for d in DIALECTS for f in FLAGS], budget_s=40))
     hs.append(Harness("dotted", h_dotted, [dict(dn=d, with_schema=w) for d in MAIN for w in (False, True)], budget_s=60))
     unf = []
